@@ -10,7 +10,7 @@
    base (zope.interface appends Interface to every __sro__). *)
 From Coq Require Import List Arith Bool.
 Import ListNotations.
-From ZI Require Import Model.Ro Spec.C3 Proofs.Ro.
+From ZI Require Import Lib.Py Model.Ro Spec.C3 Proofs.Ro Gen.RoKernel Proofs.RoKernel.
 
 (* (a) C3._merge terminates within the fuel given: the out-of-fuel answer never occurs *)
 Theorem C03_merge_fuel_enough : forall seqs, c3_merge seqs <> MFuel.
@@ -152,6 +152,92 @@ Theorem C03_legacy_sro_valid : forall rk g root x fuel,
 Proof. exact legacy_sro_thm. Qed.
 Print Assumptions C03_legacy_sro_valid.
 
+(* ---------------------------------------------------------------- the model is the source text
+   coq/Gen/RoKernel.v is regenerated from ro.py / interface.py on every run by the fail-closed
+   translator harness/translate/ro_kernel.py; every generated definition equals the hand-written
+   definition of Model/Ro.v the theorems above are about. *)
+
+Theorem C03_generated_can_choose_base_eq_model : forall base seqs,
+  gen_can_choose_base base seqs = can_choose base seqs.
+Proof. exact gen_can_choose_base_eq. Qed.
+Print Assumptions C03_generated_can_choose_base_eq_model.
+
+(* base = None on the first pass of the loop (drops the empty sequences), then the chosen base *)
+Theorem C03_generated_nonempty_bases_ignoring_eq_model : forall seqs,
+  gen_nonempty_bases_ignoring seqs None = filter nonempty seqs /\
+  forall b, gen_nonempty_bases_ignoring seqs (Some b) = remove_everywhere b seqs.
+Proof. intros seqs. split; [apply gen_nonempty_bases_ignoring_none|intros b; apply gen_nonempty_bases_ignoring_some]. Qed.
+Print Assumptions C03_generated_nonempty_bases_ignoring_eq_model.
+
+(* on non-empty sequences (what _nonempty_bases_ignoring leaves) no IndexError, and the model's choice *)
+Theorem C03_generated_find_next_C3_base_eq_model : forall seqs,
+  Forall (fun s : list nat => s <> []) seqs -> gen_find_next_C3_base seqs = Ret (find_next seqs).
+Proof. exact gen_find_next_C3_base_eq. Qed.
+Print Assumptions C03_generated_find_next_C3_base_eq_model.
+
+Theorem C03_generated_legacy_mergeOrderings_eq_model : forall l fuel g x,
+  gen_legacy_mergeOrderings [l] = keep_last l /\
+  gen_legacy_ro (legacy_flatten fuel g x) = legacy_ro fuel g x.
+Proof. intros. split; [apply gen_legacy_mergeOrderings_eq|apply gen_legacy_ro_eq]. Qed.
+Print Assumptions C03_generated_legacy_mergeOrderings_eq_model.
+
+(* C3._merge (with _choose_next_base, both _guess_next_base and the _UseLegacyRO handler) *)
+Theorem C03_generated_merge_eq_model : forall strict legacy tree,
+  gen_merge (S (total_len (filter nonempty tree))) strict legacy tree =
+  match c3_merge tree with
+  | MOk l => MroRet l false
+  | MBad => if strict then MroRaise InconsistentResolutionOrderError else MroRet legacy true
+  | MFuel => MroFuel
+  end.
+Proof. exact gen_merge_eq. Qed.
+Print Assumptions C03_generated_merge_eq_model.
+
+(* C3.__init__ (base_tree, single-base short cut), mro() and had_inconsistency: one C3 object *)
+Theorem C03_generated_c3_node_eq_model : forall strict x bs base_mros bases_inc legacy,
+  length base_mros = length bs ->
+  c3_node strict x bs base_mros bases_inc legacy =
+  match gen_mro (S (total_len (filter nonempty ([[x]] ++ base_mros ++ [bs])))) strict x bs base_mros legacy with
+  | MroRet m direct => ROk m (gen_had_inconsistency direct bases_inc)
+  | MroRaise _ => RRaise
+  | MroFuel => RFuel
+  end.
+Proof. exact gen_c3_node_eq. Qed.
+Print Assumptions C03_generated_c3_node_eq_model.
+
+Theorem C03_generated_had_inconsistency_eq_model : forall rs ms inc,
+  (forall d b, gen_had_inconsistency d b = orb d b) /\
+  (collect rs = inl (ms, inc) ->
+   inc = gen_bases_had_inconsistency (map (fun r => match r with ROk _ i => i | _ => false end) rs)).
+Proof. intros. split; [reflexivity|apply gen_bases_had_inconsistency_eq]. Qed.
+Print Assumptions C03_generated_had_inconsistency_eq_model.
+
+(* ro(): whatever log_changed is, the model's ro is the generated selection applied to the resolver's answer *)
+Theorem C03_generated_ro_eq_model : forall log_changed strict use_legacy fuel g x,
+  ro strict use_legacy fuel g x =
+  match resolve strict fuel g x with
+  | ROk m i => ROk (gen_ro log_changed use_legacy m (legacy_ro fuel g x)) i
+  | r => r
+  end.
+Proof. exact gen_ro_eq. Qed.
+Print Assumptions C03_generated_ro_eq_model.
+
+(* is_consistent: non-strict resolver, the flag is read after the order was computed *)
+Theorem C03_generated_is_consistent_eq_model :
+  gen_is_consistent_strict = false /\
+  (forall direct binc, gen_is_consistent direct binc = negb (gen_had_inconsistency direct binc)) /\
+  forall fuel g x, is_consistent fuel g x =
+    match resolve gen_is_consistent_strict fuel g x with ROk _ i => Some (negb i) | _ => None end.
+Proof.
+  split; [apply gen_is_consistent_eq|]. split; [apply gen_is_consistent_eq|exact gen_is_consistent_model].
+Qed.
+Print Assumptions C03_generated_is_consistent_eq_model.
+
+(* Specification._calculate_sro: the "Interface last" fix-up *)
+Theorem C03_generated_root_fixup_eq_model : forall root sro,
+  gen_root_fixup (Some root) sro = root_last root sro.
+Proof. exact gen_root_fixup_eq. Qed.
+Print Assumptions C03_generated_root_fixup_eq_model.
+
 (* ---------------------------------------------------------------- non-vacuity witnesses *)
 (* Interface = 0.  Diamond: 1(0) 2(1) 3(1) 4(2,3).  Inconsistent: 1(0) 2(1) 3(1,2). *)
 Definition g_diamond : graph := [(0, []); (1, [0]); (2, [1]); (3, [1]); (4, [2; 3])].
@@ -244,5 +330,16 @@ Proof. vm_compute. repeat split; reflexivity. Qed.
 Example ex_shortcut : c3_node true 2 [1] [[1; 0]] false [] = ROk [2; 1; 0] false
   /\ c3_merge ([[2]] ++ [[1; 0]] ++ [[1]]) = MOk [2; 1; 0].
 Proof. vm_compute. split; reflexivity. Qed.
+(* generated kernels on the witnesses *)
+Example ex_generated : gen_can_choose_base 1 [[1; 0]; [2; 1; 0]; [1; 2]] = false
+  /\ gen_merge 20 false [9] [[3]; [1; 0]; [2; 1; 0]; [1; 2]] = MroRet [9] true
+  /\ gen_merge 20 true [9] [[3]; [1; 0]; [2; 1; 0]; [1; 2]] = MroRaise InconsistentResolutionOrderError
+  /\ gen_merge 20 true [] [[4]; [2; 1; 0]; [3; 1; 0]; [2; 3]] = MroRet [4; 2; 3; 1; 0] false
+  /\ gen_root_fixup (Some 0) [3; 0; 2] = [3; 2; 0]
+  /\ gen_legacy_mergeOrderings [[4; 2; 1; 0; 3; 1; 0]] = [4; 2; 3; 1; 0]
+  /\ Forall (fun s : list nat => s <> []) [[3]; [1; 0]].
+Proof.
+  repeat (split; [vm_compute; reflexivity|]). repeat constructor; discriminate.
+Qed.
 Example ex_iro : iro_of (fun y => Nat.even y) [4; 3; 2; 1; 0] = [4; 2; 0].
 Proof. reflexivity. Qed.
